@@ -95,9 +95,10 @@ def run(ctx):
         phsp_kind = ["positive", "ones", "mixed_mild"][i % 3]
         phsp = lik.make_sample(cfg, card, nmc, rng, phsp_kind, cfit=cfit)
         bg = None
-        if not cfit and i % 4 != 3:
+        rot = i + i // len(MODEL_NAMES)  # de-aliased case counter: conditions on it rotate over the models from round to round
+        if not cfit and rot % 4 != 3:
             bg = lik.make_sample(cfg, card, 23, rng, "ones")
-            if i % 8 == 1:
+            if rot % 5 == 1:
                 bg["weight"] = -rng.uniform(0.05, 0.6, 23)  # background with its own (negative) weights
         bg_frac = opts.get("bg_frac")
         try:
@@ -160,7 +161,7 @@ def run(ctx):
             except Exception as e:
                 ctx.violation("BaseModel.nll on raw weights == formula", ctx.exc_witness(e, **desc()), mechanism="BaseModel.nll raises (%s)" % model)
         # rescaling invariance (non-extended)
-        if "extended" not in model and i % 2 == 0:
+        if "extended" not in model and rot % 2 == 0:
             s = float(rng.uniform(0.3, 3.0))
             p2 = {k: (v * s if k.endswith("total_0r") else v) for k, v in params.items()}
             with lik.quiet():
